@@ -3456,7 +3456,7 @@ class Frame(ContainerOperand):
         Args:
             {value}
         '''
-        if hasattr(value, '__iter__') and not isinstance(value, str):
+        if hasattr(value, '__iter__') and not isinstance(value, (str, bytes)):
             if not isinstance(value, Frame):
                 raise RuntimeError('unlabeled iterables cannot be used for fillna: use a Frame')
             # get a dummy fill_value to use during reindex and avoid undesirable type cooercions
